@@ -512,9 +512,14 @@ func c16(c *ctx) {
 	for i := 0; i < n/4; i++ {
 		c16wire(c, i)
 	}
+	ng := 2
 	if c.thorough() {
 		for i := 0; i < 40; i++ {
 			c16race(c, i)
 		}
+		ng = 6
+	}
+	for i := 0; i < ng; i++ {
+		c16gate(c, i)
 	}
 }
